@@ -1,8 +1,8 @@
-(* Properties_C01.v — the encoder emits conformant packets that decode back to the same message (name level proved). *)
-From QV Require Import Base Fields SrcFacts Msg Decoder Encoder WireSpec DecoderSafety DecoderComplete EncoderProofs.
+(* Properties_C01.v — the encoder emits conformant packets that decode back to the same message. *)
+From QV Require Import Base Fields SrcFacts Msg Decoder Encoder WireSpec DecoderSafety DecoderComplete EncoderProofs WireMsg DecoderMsg EncoderMsg.
 Local Open Scope N_scope.
 
-(* PARTIAL with respect to the full statement "wf_msg m -> Encodes (to_packet m) m /\ from_packet (to_packet m) = Ok m".
+(* Name level (the message-level theorems follow below).  With respect to the full statement "wf_msg m -> Encodes (to_packet m) m /\ from_packet (to_packet m) = Ok m".
    Proved: the part of the encoder that carries the compression logic.  For every buffer P written so far, every
    compression map whose entries are good in P (each maps a suffix to an offset < 16 KiB at which that suffix is
    conformantly encoded - the invariant MapOK, which writeName re-establishes: last conjunct), and every well-formed
@@ -38,4 +38,78 @@ Example C01_example :
   let '(b1, o1, m1) := write_name (Some [97; 46; 98; 46]) 12 [] in
   let '(b2, o2, m2) := write_name (Some [99; 46; 98; 46]) o1 m1 in
   b2 = [1; 99; 192; 14] /\ decode_name (hdr ++ b1 ++ b2) o1 = Ok (Some [99; 46; 98; 46], o2).
-Proof. vm_compute. auto. Qed.
+Proof. vm_compute. split; [reflexivity|split; reflexivity]. Qed.
+
+(* ---- message level ----
+   [wf_message m]: a 16-bit id; every name has at least one label, labels of 1..63 bytes without '.', and a trailing
+   dot; records of the six supported types with in-range fields (A: an IPv4 address, AAAA: 16 bytes, SRV: 16-bit
+   numbers, TXT: non-empty keys without '=', strings of at most 255 bytes, keys strictly increasing as in the QMap,
+   NSEC: a bitmap of at most 255 bytes, TTL < 2^32); the uncompressed size [usize_message] at most 16 KiB, so that every
+   offset fits a compression pointer.
+   [canon_message m]: m with the sender address and port cleared (they are not part of a packet) and every record
+   reduced to name, type, cache-flush bit, TTL and the data of its type - what the property calls "an equal message".
+   [MessageAt] (WireMsg.v) is the RFC 1035 / 6762 format as a relation, written without reference to the library. *)
+
+(* the packet is a standards-conformant encoding of the message: counts, length fields and compression pointers are all
+   consistent (every pointer targets an earlier offset at which the remaining labels are encoded) *)
+Theorem C01_packet_conformant m :
+  wf_message m -> lenN (to_packet m) <= 16384 /\ MessageAt (mem_of (to_packet m)) (lenN (to_packet m)) (canon_message m).
+Proof. exact (to_packet_conformant m). Qed.
+Print Assumptions C01_packet_conformant.
+
+(* the library's own decoder applied to that packet succeeds and returns the message *)
+Theorem C01_decode_encode m : wf_message m -> decode (to_packet m) = Ok (canon_message m).
+Proof. exact (decode_to_packet m). Qed.
+Print Assumptions C01_decode_encode.
+
+(* canon changes nothing on a record that only carries the data of its type *)
+Theorem C01_canon_idempotent r : canon (canon r) = canon r.
+Proof.
+  unfold canon. cbn [canon_base r_type r_name r_flush r_ttl set_ttl set_flush set_type set_name].
+  destruct (r_type r =? 1) eqn:E1; [cbn; rewrite E1; reflexivity|].
+  destruct (r_type r =? 28) eqn:E2; [cbn; rewrite E1, E2; reflexivity|].
+  destruct (r_type r =? 12) eqn:E3; [cbn; rewrite E1, E2, E3; reflexivity|].
+  destruct (r_type r =? 33) eqn:E4; [cbn; rewrite E1, E2, E3, E4; reflexivity|].
+  destruct (r_type r =? 16) eqn:E5; [cbn; rewrite E1, E2, E3, E4, E5; reflexivity|].
+  destruct (r_type r =? 47) eqn:E6; [cbn; rewrite E1, E2, E3, E4, E5, E6; reflexivity|].
+  cbn. rewrite E1, E2, E3, E4, E5, E6. reflexivity.
+Qed.
+Print Assumptions C01_canon_idempotent.
+
+
+(* non-vacuity: a response with a question and a PTR, an SRV and a TXT record sharing name suffixes is well-formed, so
+   the theorems apply to it; its 76-byte packet (97 bytes uncompressed) uses compression pointers and decodes back to exactly the message *)
+Definition ex_nm (ls : list bytes) := Some (join ls ++ [DOT]).
+Definition ex_ty := [[95; 116]; [108]].
+Definition ex_inst := [[105]; [95; 116]; [108]].
+Definition ex_host := [[104]; [108]].
+Definition ex_base n t := set_ttl 120 (set_type t (set_name (ex_nm n) default_record)).
+Definition ex_m := mkMessage ANull 0 7 true false [mkQuery (ex_nm ex_ty) 12 true]
+             [set_target (ex_nm ex_inst) (ex_base ex_ty 12);
+              set_flush true (set_target (ex_nm ex_host) (set_port 80 (ex_base ex_inst 33)));
+              set_flush true (set_attrs [([107], Some [118])] (ex_base ex_inst 16))].
+Lemma ex_L : forall l, In l [[95; 116]; [108]; [105]; [104]] -> wf_label l.
+Proof.
+  intros l H. repeat (destruct H as [<-|H]; [split; [discriminate|split; [vm_compute; discriminate|split; [reflexivity|repeat constructor]]]|]). destruct H.
+Qed.
+Lemma ex_W : forall ls, Forall (fun l => In l [[95; 116]; [108]; [105]; [104]]) ls -> ls <> [] -> WfName (Some (join ls ++ [DOT])) ls.
+Proof. intros ls F Hne. split; [exact Hne|]. split; [|reflexivity]. eapply Forall_impl; [|exact F]. exact ex_L. Qed.
+Ltac wn := eexists; apply ex_W; [repeat constructor; cbn; tauto|discriminate].
+Example C01_example_wf : wf_message ex_m.
+Proof.
+  unfold wf_message, ex_m. cbn [m_id m_queries m_records].
+  split; [reflexivity|]. split.
+  { apply Forall_cons; [|apply Forall_nil]. split; [cbn [q_name]; wn|reflexivity]. }
+  split; [|vm_compute; discriminate].
+  apply Forall_cons; [|apply Forall_cons; [|apply Forall_cons; [|apply Forall_nil]]].
+  - split; [cbn [r_name]; wn|]. split; [reflexivity|]. right. right. left. split; [reflexivity|]. cbn [r_target set_target]. wn.
+  - split; [cbn [r_name]; wn|]. split; [reflexivity|]. right. right. right. left.
+    split; [reflexivity|]. split; [reflexivity|]. split; [reflexivity|]. split; [reflexivity|]. cbn [r_target set_target set_flush]. wn.
+  - split; [cbn [r_name]; wn|]. split; [reflexivity|]. right. right. right. right. left. split; [reflexivity|]. split.
+    + apply Forall_cons; [|apply Forall_nil]. split; [discriminate|]. split; [reflexivity|]. vm_compute. discriminate.
+    + split; [intros k' v' []|exact I].
+Qed.
+
+Example C01_example_roundtrip :
+  canon_message ex_m = ex_m /\ lenN (to_packet ex_m) = 76 /\ decode (to_packet ex_m) = Ok ex_m.
+Proof. vm_compute. split; [reflexivity|split; reflexivity]. Qed.
